@@ -295,6 +295,8 @@ class SymInt(object):
     def _coerce(self, o):
         if isinstance(o, SymInt):
             return o
+        if isinstance(o, float) or type(o).__name__ == 'SymFloat':
+            raise _FloatOperand()
         if isinstance(o, SymBool):
             return o.as_int()
         if isinstance(o, bool):
@@ -526,6 +528,30 @@ class SymInt(object):
         if byteorder == 'big':
             items.reverse()
         return vtypes.VBytes(items)
+
+
+class _FloatOperand(Exception):
+    pass
+
+
+def _floatop(fn):
+    import functools
+
+    @functools.wraps(fn)
+    def w(self, o):
+        try:
+            return fn(self, o)
+        except _FloatOperand:
+            from . import symfloat
+            a = symfloat.to_float(self)
+            name = fn.__name__
+            return getattr(a, name)(o)
+    return w
+
+
+for _n in ('__add__', '__radd__', '__sub__', '__rsub__', '__mul__', '__rmul__', '__lt__', '__le__', '__gt__', '__ge__',
+           '__eq__', '__ne__'):
+    setattr(SymInt, _n, _floatop(getattr(SymInt, _n)))
 
 
 def _lo(a):
@@ -804,11 +830,13 @@ class Stats(object):
         self.aborted = 0
         self.labels = {}
         self.concretizations = 0
+        self.fallback_queries = 0
 
     def as_dict(self):
         return dict(self.__dict__)
 
     def merge(self, o):
+        self.fallback_queries = getattr(self, 'fallback_queries', 0) + o.get('fallback_queries', 0)
         for k in ('paths', 'branches', 'queries', 'obligations', 'discharged', 'aborted', 'concretizations'):
             setattr(self, k, getattr(self, k) + o[k])
         self.solver_s += o['solver_s']
@@ -820,7 +848,9 @@ class Explorer(object):
     """Depth-first exploration of a harness by re-execution under decision prefixes."""
 
     def __init__(self, fn, max_paths=200000, max_seconds=3600.0, query_timeout_ms=60000,
-                 max_cex=3, witness_every=0, conc_cap=300):
+                 max_cex=3, witness_every=0, conc_cap=300, inc_timeout_ms=8000, backend='z3'):
+        self.inc_timeout_ms = inc_timeout_ms
+        self.backend = backend
         self.fn = fn
         self.max_paths = max_paths
         self.max_seconds = max_seconds
@@ -842,21 +872,100 @@ class Explorer(object):
         self.extra_exports = []
 
     # -- solver plumbing ----------------------------------------------------------------
-    def _check(self, *assumptions):
+    def _check(self, extra=None):
+        """decide  path-condition /\ extra.  Incremental z3 first (short timeout); on unknown retry with a fresh
+        non-incremental z3 solver (full tactic pipeline).  backend == 'cvc5' sends the query to the cvc5 binary
+        (much faster on floating point) and rebuilds a z3 model from its values."""
         t = time.time()
-        r = self.solver.check(*assumptions)
-        self.stats.solver_s += time.time() - t
         self.stats.queries += 1
-        if r == z3.unknown:
-            raise Inconclusive("solver returned unknown (%s)" % self.solver.reason_unknown())
+        try:
+            if self.backend == 'cvc5':
+                r, m = self._check_cvc5(extra)
+            else:
+                if extra is not None:
+                    self.solver.push()
+                    self.solver.add(extra)
+                self.solver.set('timeout', min(self.inc_timeout_ms, self.query_timeout_ms))
+                r = self.solver.check()
+                m = self.solver.model() if r == z3.sat else None
+                if extra is not None:
+                    self.solver.pop()
+                if r == z3.unknown:
+                    s2 = z3.Solver()
+                    s2.set('timeout', self.query_timeout_ms)
+                    s2.add(self.solver.assertions())
+                    if extra is not None:
+                        s2.add(extra)
+                    self.stats.queries += 1
+                    self.stats.fallback_queries += 1
+                    r = s2.check()
+                    m = s2.model() if r == z3.sat else None
+                    if r == z3.unknown:
+                        raise Inconclusive("solver returned unknown (%s)" % s2.reason_unknown())
+        finally:
+            self.stats.solver_s += time.time() - t
+        self._last_model = m
         return r
+
+    def _check_cvc5(self, extra):
+        import subprocess
+        import tempfile
+        import os
+        s2 = z3.Solver()
+        s2.add(self.solver.assertions())
+        if extra is not None:
+            s2.add(extra)
+        consts = {}
+        for a in s2.assertions():
+            _collect_consts(a, consts)
+        body = s2.to_smt2()
+        names = sorted(consts)
+        gv = '(get-value (%s))\n' % ' '.join(_smt_name(n) for n in names) if names else ''
+        text = '(set-option :produce-models true)\n(set-logic ALL)\n' + body + gv
+        fd, path = tempfile.mkstemp(suffix='.smt2', prefix='symx_')
+        try:
+            with os.fdopen(fd, 'w') as f:
+                f.write(text)
+            try:
+                p = subprocess.run(['cvc5', '--tlimit=%d' % self.query_timeout_ms, path], capture_output=True, text=True,
+                                   timeout=self.query_timeout_ms / 1000.0 + 30)
+            except subprocess.TimeoutExpired:
+                raise Inconclusive("cvc5 timed out")
+        finally:
+            try:
+                os.remove(path)
+            except OSError:
+                pass
+        out = p.stdout.strip()
+        first = out.split('\n', 1)[0].strip()
+        rest = out.split('\n', 1)[1] if '\n' in out else ''
+        if first == 'unsat' and rest.count('(error') <= 1 and 'Cannot get value' in (rest or 'Cannot get value'):
+            return z3.unsat, None
+        if '(error' in out or '(error' in p.stderr:
+            raise Inconclusive("cvc5 error: %s %s" % (out[:300], p.stderr[:300]))
+        if first != 'sat':
+            raise Inconclusive("cvc5 returned %r" % first[:80])
+        vals = _parse_get_value(out.split('\n', 1)[1] if '\n' in out else '')
+        s3 = z3.Solver()
+        s3.set('timeout', self.query_timeout_ms)
+        s3.add(s2.assertions())
+        for n in names:
+            if n in vals:
+                c = consts[n]
+                v = _z3_value(c, vals[n])
+                if v is not None:
+                    s3.add(c == v if not z3.is_fp(c) else z3.fpToIEEEBV(c) == v)
+        r = s3.check()
+        if r != z3.sat:
+            raise Inconclusive("could not rebuild a z3 model from cvc5 values (%s)" % r)
+        return z3.sat, s3.model()
 
     def get_model(self):
         if self.model is None:
             r = self._check()
             if r != z3.sat:
                 raise PathAbort()
-            self.model = self.solver.model()
+            self.model = self._last_model
         return self.model
 
     def add(self, e):
@@ -883,10 +992,7 @@ class Explorer(object):
         m = self.get_model()
         v = z3.is_true(m.eval(cond, model_completion=True))
         other = z3.Not(cond) if v else cond
-        self.solver.push()
-        self.solver.add(other)
-        r = self._check()
-        self.solver.pop()
+        r = self._check(other)
         if r == z3.sat:
             self.pending.append(self.prefix[:i] + [not v])
             self.solver.add(cond if v else z3.Not(cond))
@@ -928,7 +1034,7 @@ class Explorer(object):
             self.model = None
             if self._check() != z3.sat:
                 raise PathAbort()
-            self.model = self.solver.model()
+            self.model = self._last_model
         elif not c:
             raise PathAbort()
 
@@ -937,15 +1043,10 @@ class Explorer(object):
         st.obligations += 1
         st.labels[label] = st.labels.get(label, 0) + 1
         if isinstance(c, (SymBool, SymInt)):
-            self.solver.push()
-            self.solver.add(z3.Not(bexpr(c)))
-            r = self._check()
+            r = self._check(z3.Not(bexpr(c)))
             if r == z3.sat:
-                m = self.solver.model()
-                self.solver.pop()
-                self._record_cex(label, m, detail)
+                self._record_cex(label, self._last_model, detail)
                 return False
-            self.solver.pop()
             st.discharged += 1
             return True
         if c:
@@ -1000,7 +1101,6 @@ class Explorer(object):
 
     def _one_path(self, pre):
         self.solver = z3.Solver()
-        self.solver.set('timeout', self.query_timeout_ms)
         self.prefix = list(pre)
         self.pos = 0
         self.model = None
@@ -1024,6 +1124,117 @@ class Explorer(object):
                     pass
 
 
+def _collect_consts(e, acc):
+    todo = [e]
+    seen = set()
+    while todo:
+        t = todo.pop()
+        i = t.get_id()
+        if i in seen:
+            continue
+        seen.add(i)
+        if z3.is_const(t) and t.decl().kind() == z3.Z3_OP_UNINTERPRETED:
+            acc[t.decl().name()] = t
+        else:
+            todo.extend(t.children())
+
+
+def _smt_name(n):
+    import re
+    return n if re.match(r'^[A-Za-z_][A-Za-z0-9_.]*$', n) else '|%s|' % n
+
+
+def _tokenize(s):
+    out = []
+    i = 0
+    n = len(s)
+    while i < n:
+        c = s[i]
+        if c in '()':
+            out.append(c)
+            i += 1
+        elif c.isspace():
+            i += 1
+        elif c == '|':
+            j = s.index('|', i + 1)
+            out.append(s[i + 1:j])
+            i = j + 1
+        else:
+            j = i
+            while j < n and not s[j].isspace() and s[j] not in '()':
+                j += 1
+            out.append(s[i:j])
+            i = j
+    return out
+
+
+def _parse_sexp(toks, pos):
+    if toks[pos] == '(':
+        lst = []
+        pos += 1
+        while toks[pos] != ')':
+            x, pos = _parse_sexp(toks, pos)
+            lst.append(x)
+        return lst, pos + 1
+    return toks[pos], pos + 1
+
+
+def _parse_get_value(text):
+    text = text.strip()
+    if not text:
+        return {}
+    toks = _tokenize(text)
+    sx, _ = _parse_sexp(toks, 0)
+    out = {}
+    for pair in sx:
+        if isinstance(pair, list) and len(pair) == 2 and isinstance(pair[0], str):
+            out[pair[0]] = pair[1]
+    return out
+
+
+def _bvlit(x):
+    if isinstance(x, str):
+        if x.startswith('#b'):
+            return int(x[2:], 2), len(x) - 2
+        if x.startswith('#x'):
+            return int(x[2:], 16), 4 * (len(x) - 2)
+    if isinstance(x, list) and len(x) == 3 and x[0] == '_' and x[1].startswith('bv'):
+        return int(x[1][2:]), int(x[2])
+    return None
+
+
+def _z3_value(c, v):
+    if z3.is_bool(c):
+        return z3.BoolVal(v == 'true')
+    if z3.is_bv(c):
+        b = _bvlit(v)
+        return None if b is None else z3.BitVecVal(b[0], c.size())
+    if z3.is_int(c):
+        if isinstance(v, list) and v and v[0] == '-':
+            return z3.IntVal(-int(v[1]))
+        return z3.IntVal(int(v))
+    if z3.is_fp(c):
+        eb, sb = c.sort().ebits(), c.sort().sbits()
+        tot = eb + sb
+        if isinstance(v, list) and v and v[0] == 'fp':
+            s_, e_, m_ = _bvlit(v[1]), _bvlit(v[2]), _bvlit(v[3])
+            return z3.BitVecVal((s_[0] << (tot - 1)) | (e_[0] << (sb - 1)) | m_[0], tot)
+        if isinstance(v, list) and len(v) == 4 and v[0] == '_':
+            kind = v[1]
+            if kind == '+zero':
+                return z3.BitVecVal(0, tot)
+            if kind == '-zero':
+                return z3.BitVecVal(1 << (tot - 1), tot)
+            if kind == '+oo':
+                return z3.BitVecVal(((1 << eb) - 1) << (sb - 1), tot)
+            if kind == '-oo':
+                return z3.BitVecVal((1 << (tot - 1)) | (((1 << eb) - 1) << (sb - 1)), tot)
+            if kind == 'NaN':
+                return z3.BitVecVal((((1 << eb) - 1) << (sb - 1)) | 1, tot)
+        return None
+    return None
+
+
 def _eval_input(m, kind, obj):
     if kind == 'int':
         if not isinstance(obj, SymInt):
@@ -1042,4 +1253,7 @@ def _eval_input(m, kind, obj):
         return bool(obj)
     if kind == 'choice':
         return _eval_input(m, 'int', obj)
+    if kind == 'float':
+        bv = m.eval(z3.fpToIEEEBV(obj.e), model_completion=True)
+        return '%016x' % bv.as_long()
     raise EngineLeak("unknown input kind %s" % kind)
